@@ -72,7 +72,7 @@ fn check_fwd(acc: &mut Acc, stratum: &str, base: u64, px: &[[f32; 3]]) {
 
 pub fn run(tier: Tier) -> Report {
     let mut rep = Report::new("C04");
-    let a = axis(4.0, tier.pick(56, 1000));
+    let a = axis(4.0, tier.pick(if light() { 56 } else { 200 }, 1500));
     let al = a.len() as u64;
     let total = al * al * al;
     let acc = par_chunks_varied(total, 1 << 15, |acc, lo, hi| {
@@ -85,7 +85,7 @@ pub fn run(tier: Tier) -> Report {
     });
     rep.acc.merge(acc);
     // negative stratum on [-1,4]^3
-    let steps: u64 = tier.pick(40, 160);
+    let steps: u64 = tier.pick(if light() { 40 } else { 80 }, 200);
     let g: Vec<f32> = (0..=steps).map(|i| (-1.0 + 5.0 * i as f64 / steps as f64) as f32).collect();
     let gl = g.len() as u64;
     let ntotal = gl * gl * gl;
@@ -115,7 +115,7 @@ pub fn run(tier: Tier) -> Report {
     rep.acc.merge(acc);
     rep.bound = format!(
         "full product of a {al}-value axis alphabet on [0,4] (0, min subnormal, min normal, 4*2^-k for k=1..40, uniform grid of {} points) = {total} pixels; plus every pixel of the {gl}^3 lattice on [-1,4]^3 that has a negative component and is well-conditioned per the statement",
-        tier.pick(56, 1000)
+        tier.pick(if light() { 56 } else { 200 }, 1500)
     );
     rep.rule = "Xyb::from(LinearRgb) on every pixel vs f64 cbrt(max(0, A*rgb+b)) - cbrt(b) with the constants quoted in C04, |error| <= 2e-6 per component, dims preserved".into();
     rep.assumptions = vec!["continuous cube bounded by the stated product alphabet (dense near black, where the cube root is steepest)".into()];
@@ -189,7 +189,7 @@ fn check_rt(acc: &mut Acc, base: u64, px: &[[f32; 3]]) {
 
 pub fn run_c05(tier: Tier) -> Report {
     let mut rep = Report::new("C05");
-    let a = axis(1.0, tier.pick(56, 1000));
+    let a = axis(1.0, tier.pick(if light() { 56 } else { 200 }, 1500));
     let al = a.len() as u64;
     let total = al * al * al;
     let acc = par_chunks_varied(total, 1 << 15, |acc, lo, hi| {
@@ -200,7 +200,7 @@ pub fn run_c05(tier: Tier) -> Report {
         }
     });
     rep.acc.merge(acc);
-    rep.bound = format!("full product of a {al}-value axis alphabet on [0,1] (0, min subnormal, min normal, 2^-k for k=1..40, uniform grid of {} points) = {total} pixels", tier.pick(56, 1000));
+    rep.bound = format!("full product of a {al}-value axis alphabet on [0,1] (0, min subnormal, min normal, 2^-k for k=1..40, uniform grid of {} points) = {total} pixels", tier.pick(if light() { 56 } else { 200 }, 1500));
     rep.rule = "LinearRgb::from(Xyb::from(LinearRgb)) on every pixel, |result - input| <= 5e-5 per component, dims preserved; the forward path is the oracle".into();
     rep.guard_bucket("returned within 5e-5");
     rep
